@@ -7,7 +7,7 @@ cd "$(dirname "$0")/.." || exit 2
 mkdir -p matrix_out
 ALL=C01,C02,C03,C04,C05,C06,C07,C08,C09,C10,C11,C12,C13,C14,C15,C16,C17,C18,C19,C20
 seeds="$@"
-[ -z "$seeds" ] && seeds=$(ls seeded)
+[ -z "$seeds" ] && seeds=$(for d in seeded/C*; do grep -q '"status": "retired"' $d/meta.json || basename $d; done)
 LANES=${LANES:-3}
 one() {
   python3 tools/seedtest.py seeded/$1 --novalidate --props $ALL > matrix_out/$1.json 2> matrix_out/$1.err
